@@ -72,6 +72,12 @@ func (w *bufferedResponseWriter) Header() http.Header {
 }
 
 func (w *bufferedResponseWriter) WriteHeader(statusCode int) {
+	if statusCode >= 100 && statusCode <= 199 {
+		// Informational responses are not the final status; pass them on.
+		w.ResponseWriter.WriteHeader(statusCode)
+		return
+	}
+
 	if !w.headerWritten {
 		w.statusCode = statusCode
 		w.headerWritten = true
